@@ -50,9 +50,9 @@ Print Assumptions C06_format_name_rejected.
    name is the name argument, and FromFormat / EnvelopeFromFormat / ReplyToFormat leave exactly one entry with it.
    H-addr: Parse(String a) = a;  H-name: on DQUOTE..DQUOTE SP LESS-THAN.. the oracle's Name is what the RFC 5322 reader reads. *)
 Theorem C06_format_call_stores_name : forall parse addr_string encode_string,
-  (forall s a, parse s = Some a -> parse (addr_string a) = Some a) ->
+  (forall s a, parse s = Some a -> q_backslash_name (a_name a) = false -> parse (addr_string a) = Some a) ->
   (forall s a n, parse s = Some a -> read_display_name s = Some n -> a_name a = n) ->
-  forall calls name address, forallb qs_byte name = true ->
+  forall calls name address, Forall (clean_call parse encode_string) calls -> forallb qs_byte name = true ->
   let m := run parse addr_string encode_string calls [] in
   (forall s, slot_hdr s <> hdr_from ->
      snd (apply_call parse addr_string encode_string m (CAddFormat s name address)) = true ->
@@ -92,19 +92,33 @@ Theorem C06_from_single : forall parse addr_string encode_string calls m0,
 Proof. exact from_at_most_one. Qed.
 Print Assumptions C06_from_single.
 
+(* H-addr (Parse (String a) = a) is FALSE of net/mail (go1.23.5) for display names of the class q_backslash_name
+   (needs RFC 2047 encoding, holds a backslash, none of the characters that select the B encoding): Address.String
+   Q-encodes the name with the backslash raw inside the encoded-word, which ParseAddress rejects.  The oracle is not
+   Gallina; the witness values of the real functions are reproduced by the harness on every run (corpus case w8,
+   known finding dispname-backslash-q-encoded-word: a later AddTo/AddCc/AddBcc on that header fails and the rendered
+   field cannot be read back by net/mail).  The theorems below that use H-addr therefore assume it only outside the
+   class and quantify over call sequences none of whose arguments denotes such a name ([clean_call]). *)
+Theorem C06_haddr_backslash_q_refuted :
+  q_backslash_name wit_name = true /\ read_display_name wit_in = Some wit_name /\
+  exists a, wit_parse wit_in = Some a /\ a_name a = wit_name /\ wit_parse (wit_string a) <> Some a.
+Proof. exact haddr_backslash_q_refuted. Qed.
+Print Assumptions C06_haddr_backslash_q_refuted.
+
 (* The stored lists are what the reference semantics says for every call sequence (To replaces, AddTo
    appends exactly one, IgnoreInvalid keeps the parsable ones, a failing setter changes nothing, From
    keeps the first) — although addAddr re-serialises and re-parses everything stored.
    Hypothesis H-addr (validated on every generated address): Parse (String a) = a for parsed a. *)
 Theorem C06_setter_semantics : forall parse addr_string encode_string,
-  (forall s a, parse s = Some a -> parse (addr_string a) = Some a) ->
-  forall calls, run parse addr_string encode_string calls [] = spec_run parse addr_string encode_string calls [].
+  (forall s a, parse s = Some a -> q_backslash_name (a_name a) = false -> parse (addr_string a) = Some a) ->
+  forall calls, Forall (clean_call parse encode_string) calls ->
+  run parse addr_string encode_string calls [] = spec_run parse addr_string encode_string calls [].
 Proof. exact setter_semantics. Qed.
 Print Assumptions C06_setter_semantics.
 
 Theorem C06_add_one_per_call : forall parse addr_string encode_string,
-  (forall s a, parse s = Some a -> parse (addr_string a) = Some a) ->
-  forall calls s v a, parse v = Some a -> slot_hdr s <> hdr_from ->
+  (forall s a, parse s = Some a -> q_backslash_name (a_name a) = false -> parse (addr_string a) = Some a) ->
+  forall calls s v a, Forall (clean_call parse encode_string) calls -> parse v = Some a -> slot_hdr s <> hdr_from ->
   let m := run parse addr_string encode_string calls [] in
   lookup (fst (apply_call parse addr_string encode_string m (CAdd s v))) (slot_hdr s) = lookup m (slot_hdr s) ++ [a]
   /\ snd (apply_call parse addr_string encode_string m (CAdd s v)) = true.
@@ -114,8 +128,8 @@ Print Assumptions C06_add_one_per_call.
 (* ... for AddTo/AddCc/AddBcc and the ...Format variants alike, field by field: display NAMES and addresses
    already stored are unchanged, the new entry carries the parsed name and address, no other header changes *)
 Theorem C06_add_keeps_names_and_addresses : forall parse addr_string encode_string,
-  (forall s a, parse s = Some a -> parse (addr_string a) = Some a) ->
-  forall calls s c v a,
+  (forall s a, parse s = Some a -> q_backslash_name (a_name a) = false -> parse (addr_string a) = Some a) ->
+  forall calls s c v a, Forall (clean_call parse encode_string) calls ->
   (c = CAdd s v \/ exists n ad, c = CAddFormat s n ad /\ v = format_addr n ad) ->
   parse v = Some a -> slot_hdr s <> hdr_from ->
   let m := run parse addr_string encode_string calls [] in
